@@ -22,7 +22,12 @@ Record rthread := mkRT {
   r_guards : list (gkind * nat);
   r_log : list (nat * result);            (* newest first *)
   r_woken : bool;                         (* a wake-up arrived for the pending block_on *)
-  r_bospur : bool                         (* the pending block_on used its spurious return *)
+  r_bospur : bool;                        (* the pending block_on used its spurious return *)
+  r_waker : option nat;                   (* this thread was handed a waker of that thread's block_on *)
+  r_noinit : list nat;                    (* weak mode: atomics whose initial value this thread can no longer
+                                             read (a store to it happens-before the thread: its own store, or
+                                             a store made before a wake-up it has consumed) *)
+  r_wakeview : list nat                   (* what the pending wake-ups carry *)
 }.
 
 Record robj := mkRO {
@@ -53,12 +58,12 @@ Definition robj_of_decl (d : decl) : robj :=
   end.
 
 Definition rinit (weak : bool) (p : prog) : rstate :=
-  mkRS (mapi (fun b code => mkRT (if Nat.eqb b 0 then RReady else RNotStarted) code 0 false [] [] false false)
+  mkRS (mapi (fun b code => mkRT (if Nat.eqb b 0 then RReady else RNotStarted) code 0 false [] [] false false None [] [])
              (p_bodies p))
        (map robj_of_decl (p_decls p)) (p_decls p) weak.
 
 Definition ro_default : robj := mkRO 0%N None [] [] false false false [] false 0 [] false [].
-Definition rt_default : rthread := mkRT RDone [] 0 false [] [] false false.
+Definition rt_default : rthread := mkRT RDone [] 0 false [] [] false false None [] [].
 Definition robj_get (s : rstate) (i : nat) : robj := nth i (rs_objs s) ro_default.
 Definition rth_get (s : rstate) (i : nat) : rthread := nth i (rs_threads s) rt_default.
 
@@ -67,7 +72,7 @@ Definition set_obj (s : rstate) (i : nat) (o : robj) : rstate :=
 Definition set_th (s : rstate) (i : nat) (t : rthread) : rstate :=
   mkRS (list_set (rs_threads s) i t) (rs_objs s) (rs_decls s) (rs_weak s).
 
-Definition ro_with_val (o : robj) v := mkRO v (ro_owner o) (ro_readers o) (ro_waiters o) (ro_flag o) (ro_spur o) (ro_waiting o) (ro_q o) (ro_rx o) (ro_cnt o) (ro_slots o) (ro_live o) (if existsb (N.eqb v) (ro_hist o) then ro_hist o else ro_hist o ++ [v]).
+Definition ro_with_val (o : robj) v := mkRO v (ro_owner o) (ro_readers o) (ro_waiters o) (ro_flag o) (ro_spur o) (ro_waiting o) (ro_q o) (ro_rx o) (ro_cnt o) (ro_slots o) (ro_live o) (if existsb (N.eqb v) (tl (ro_hist o)) then ro_hist o else ro_hist o ++ [v]).
 Definition ro_with_owner (o : robj) w := mkRO (ro_val o) w (ro_readers o) (ro_waiters o) (ro_flag o) (ro_spur o) (ro_waiting o) (ro_q o) (ro_rx o) (ro_cnt o) (ro_slots o) (ro_live o) (ro_hist o).
 Definition ro_with_readers (o : robj) r := mkRO (ro_val o) (ro_owner o) r (ro_waiters o) (ro_flag o) (ro_spur o) (ro_waiting o) (ro_q o) (ro_rx o) (ro_cnt o) (ro_slots o) (ro_live o) (ro_hist o).
 Definition ro_with_waiters (o : robj) w := mkRO (ro_val o) (ro_owner o) (ro_readers o) w (ro_flag o) (ro_spur o) (ro_waiting o) (ro_q o) (ro_rx o) (ro_cnt o) (ro_slots o) (ro_live o) (ro_hist o).
@@ -76,16 +81,30 @@ Definition ro_with_q (o : robj) q rx := mkRO (ro_val o) (ro_owner o) (ro_readers
 Definition ro_with_arc (o : robj) c sl := mkRO (ro_val o) (ro_owner o) (ro_readers o) (ro_waiters o) (ro_flag o) (ro_spur o) (ro_waiting o) (ro_q o) (ro_rx o) c sl (ro_live o) (ro_hist o).
 Definition ro_with_live (o : robj) b := mkRO (ro_val o) (ro_owner o) (ro_readers o) (ro_waiters o) (ro_flag o) (ro_spur o) (ro_waiting o) (ro_q o) (ro_rx o) (ro_cnt o) (ro_slots o) b (ro_hist o).
 
-Definition rt_with_status (t : rthread) st := mkRT st (r_code t) (r_pc t) (r_token t) (r_guards t) (r_log t) (r_woken t) (r_bospur t).
-Definition rt_with_token (t : rthread) b := mkRT (r_status t) (r_code t) (r_pc t) b (r_guards t) (r_log t) (r_woken t) (r_bospur t).
-Definition rt_with_guards (t : rthread) g := mkRT (r_status t) (r_code t) (r_pc t) (r_token t) g (r_log t) (r_woken t) (r_bospur t).
-Definition rt_with_bo (t : rthread) st w sp := mkRT st (r_code t) (r_pc t) (r_token t) (r_guards t) (r_log t) w sp.
+Definition rt_with_status (t : rthread) st := mkRT st (r_code t) (r_pc t) (r_token t) (r_guards t) (r_log t) (r_woken t) (r_bospur t) (r_waker t) (r_noinit t) (r_wakeview t).
+Definition rt_with_token (t : rthread) b := mkRT (r_status t) (r_code t) (r_pc t) b (r_guards t) (r_log t) (r_woken t) (r_bospur t) (r_waker t) (r_noinit t) (r_wakeview t).
+Definition rt_with_guards (t : rthread) g := mkRT (r_status t) (r_code t) (r_pc t) (r_token t) g (r_log t) (r_woken t) (r_bospur t) (r_waker t) (r_noinit t) (r_wakeview t).
+Definition rt_with_bo (t : rthread) st w sp := mkRT st (r_code t) (r_pc t) (r_token t) (r_guards t) (r_log t) w sp (r_waker t) (r_noinit t) (r_wakeview t).
+Definition rt_with_waker (t : rthread) w := mkRT (r_status t) (r_code t) (r_pc t) (r_token t) (r_guards t) (r_log t) (r_woken t) (r_bospur t) w (r_noinit t) (r_wakeview t).
+Definition rt_with_views (t : rthread) ni wv := mkRT (r_status t) (r_code t) (r_pc t) (r_token t) (r_guards t) (r_log t) (r_woken t) (r_bospur t) (r_waker t) ni wv.
+Fixpoint nunion (a b : list nat) : list nat :=
+  match a with
+  | [] => b
+  | x :: a' => if existsb (Nat.eqb x) b then nunion a' b else nunion a' (b ++ [x])
+  end.
+Definition rt_add_noinit (t : rthread) (a : nat) := rt_with_views t (nunion [a] (r_noinit t)) (r_wakeview t).
 
 (* finish the current instruction of thread [t] with result [r] *)
 Definition rt_advance (t : rthread) (r : result) : rthread :=
   let code := tl (r_code t) in
   mkRT (match code with [] => RDone | _ => RReady end) code (S (r_pc t)) (r_token t) (r_guards t)
-       ((r_pc t, r) :: r_log t) false false.
+       ((r_pc t, r) :: r_log t) false false (r_waker t) (r_noinit t) (r_wakeview t).
+
+(* the values a load of atomic [a] by thread [t] may return *)
+Definition reads_of (weak : bool) (t : rthread) (o : robj) (a : nat) : list N :=
+  if weak
+  then if existsb (Nat.eqb a) (r_noinit t) then tl (ro_hist o) else ro_hist o
+  else [ro_val o].
 
 Definition has_guard (t : rthread) (k : gkind) (m : nat) : bool :=
   existsb (fun g => gkind_eqb (fst g) k && Nat.eqb (snd g) m) (r_guards t).
@@ -129,7 +148,8 @@ Definition rstep (s : rstate) (tid : nat) : rres :=
   | RWaitCv _ _ => RDisabled
   | RBoWait =>
       (* polled again after a wake-up, or once spuriously *)
-      (if r_woken t then RNext [set_th s tid (rt_with_bo t RReady false (r_bospur t))]
+      (if r_woken t then RNext [set_th s tid (rt_with_views (rt_with_bo t RReady false (r_bospur t))
+                                                              (nunion (r_wakeview t) (r_noinit t)) [])]
        else if r_bospur t then RDisabled
        else RNext [set_th s tid (rt_with_bo t RReady false true)])
   | RInNotify n =>
@@ -165,26 +185,26 @@ Definition rstep (s : rstate) (tid : nat) : rres :=
               end
           | ILoad a _ =>
               if rs_weak s
-              then RNext (map (fun v => set_th s tid (rt_advance t (RVal v))) (ro_hist (robj_get s a)))
+              then RNext (map (fun v => set_th s tid (rt_advance t (RVal v))) (reads_of true t (robj_get s a) a))
               else done1 s tid t (RVal (ro_val (robj_get s a)))
-          | IStore a v _ => done1 (set_obj s a (ro_with_val (robj_get s a) v)) tid t RUnit
+          | IStore a v _ => done1 (set_obj s a (ro_with_val (robj_get s a) v)) tid (rt_add_noinit t a) RUnit
           | IRmw a f v _ =>
               let o := robj_get s a in
-              let reads := if rs_weak s then ro_hist o else [ro_val o] in
+              let reads := reads_of (rs_weak s) t o a in
               RNext (map (fun x => set_th (set_obj s a (ro_with_val o (apply_rmw f x v))) tid
-                                          (rt_advance t (RVal x))) reads)
+                                          (rt_advance (rt_add_noinit t a) (RVal x))) reads)
           | ICas a ex nw _ _ =>
               let o := robj_get s a in
-              let reads := if rs_weak s then ro_hist o else [ro_val o] in
+              let reads := reads_of (rs_weak s) t o a in
               RNext (map (fun x =>
                             if N.eqb x ex
-                            then set_th (set_obj s a (ro_with_val o nw)) tid (rt_advance t (ROk x))
+                            then set_th (set_obj s a (ro_with_val o nw)) tid (rt_advance (rt_add_noinit t a) (ROk x))
                             else set_th s tid (rt_advance t (RErr x))) reads)
           | IFetchUpdate a f v _ _ =>
               let o := robj_get s a in
-              let reads := if rs_weak s then ro_hist o else [ro_val o] in
+              let reads := reads_of (rs_weak s) t o a in
               RNext (map (fun x => set_th (set_obj s a (ro_with_val o (apply_rmw f x v))) tid
-                                          (rt_advance t (ROk x))) reads)
+                                          (rt_advance (rt_add_noinit t a) (ROk x))) reads)
           | IFence Relaxed => RPanic
           | IFence _ => done1 s tid t RUnit
           | ILock m =>
@@ -330,7 +350,7 @@ Definition rstep (s : rstate) (tid : nat) : rres :=
                  implementation; R records only the successful one (the
                  comparison drops unsuccessful polls) *)
               let o := robj_get s a in
-              if (if rs_weak s then existsb (N.eqb v) (ro_hist o) else N.eqb (ro_val o) v)
+              if existsb (N.eqb v) (reads_of (rs_weak s) t o a)
               then done1 s tid t (RVal v) else RDisabled
           | IUnsyncLoad a => done1 s tid t (RVal (ro_val (robj_get s a)))
           | IWithMut a v =>
@@ -369,9 +389,8 @@ Definition rstep (s : rstate) (tid : nat) : rres :=
               (* poll: ready if the awaited value can be read; otherwise register the waker
                  with the AtomicWaker and wait *)
               let o := robj_get s a in
-              let can_ready := if rs_weak s then existsb (N.eqb v) (ro_hist o) else N.eqb (ro_val o) v in
-              let can_pending := if rs_weak s then existsb (fun x => negb (N.eqb x v)) (ro_hist o)
-                                 else negb (N.eqb (ro_val o) v) in
+              let can_ready := existsb (N.eqb v) (reads_of (rs_weak s) t o a) in
+              let can_pending := existsb (fun x => negb (N.eqb x v)) (reads_of (rs_weak s) t o a) in
               let ready := if can_ready then [set_th s tid (rt_advance t RUnit)] else [] in
               let pending :=
                 if can_pending
@@ -385,7 +404,8 @@ Definition rstep (s : rstate) (tid : nat) : rres :=
               | Some wt =>
                   let s := set_obj s w (ro_with_owner ow None) in
                   let tw := rth_get s wt in
-                  let s := set_th s wt (rt_with_bo tw (r_status tw) true (r_bospur tw)) in
+                  let s := set_th s wt (rt_with_views (rt_with_bo tw (r_status tw) true (r_bospur tw))
+                                                      (r_noinit tw) (nunion (r_noinit t) (r_wakeview tw))) in
                   done1 s tid (rth_get s tid) RUnit
               | None => done1 s tid t RUnit
               end
@@ -393,6 +413,39 @@ Definition rstep (s : rstate) (tid : nat) : rres :=
               let ow := robj_get s w in
               match ro_owner ow with
               | Some _ => done1 (set_obj s w (ro_with_owner ow None)) tid t (RVal 1)
+              | None => done1 s tid t (RVal 0)
+              end
+          | IBlockOnS a v b1 b2 =>
+              (* as IBlockOn; the first Pending poll starts b1 and b2, each holding one waker *)
+              let o := robj_get s a in
+              let can_ready := existsb (N.eqb v) (reads_of (rs_weak s) t o a) in
+              let can_pending := existsb (fun x => negb (N.eqb x v)) (reads_of (rs_weak s) t o a) in
+              let ready := if can_ready then [set_th s tid (rt_advance t RUnit)] else [] in
+              let start (s : rstate) (b : nat) : rstate :=
+                match b with
+                | 0 => s
+                | _ => let c := rth_get s b in
+                       match r_status c with
+                       | RNotStarted =>
+                           set_th s b (rt_with_waker
+                                         (rt_with_status c (match r_code c with [] => RDone | _ => RReady end))
+                                         (Some tid))
+                       | _ => s
+                       end
+                end in
+              let pending :=
+                if can_pending
+                then let s1 := start (start s b1) b2 in
+                     [set_th s1 tid (rt_with_status (rth_get s1 tid) RBoWait)]
+                else [] in
+              RNext (ready ++ pending)
+          | IWakeMine =>
+              match r_waker t with
+              | Some wt =>
+                  let tw := rth_get s wt in
+                  let s := set_th s wt (rt_with_views (rt_with_bo tw (r_status tw) true (r_bospur tw))
+                                                      (r_noinit tw) (nunion (r_noinit t) (r_wakeview tw))) in
+                  done1 s tid (rt_with_waker (rth_get s tid) None) (RVal 1)
               | None => done1 s tid t (RVal 0)
               end
           | ITlsWith _ => done1 s tid t RUnit
